@@ -113,6 +113,12 @@ Theorem C06_level_fuel_sufficient : forall (t : rt) (rv tg : bool) (k : nat),
 Proof. exact iter_level_n_fuel. Qed.
 Print Assumptions C06_level_fuel_sufficient.
 
+(* tight form: the while loop of _iter_level needs only calc_height() iterations *)
+Theorem C06_level_loop_bounded_by_height : forall (t : rt) (rv tg : bool) (k : nat),
+  iter_level (height t + k) rv tg (rch t) = iter_level_n t rv tg.
+Proof. exact iter_level_height_fuel. Qed.
+Print Assumptions C06_level_loop_bounded_by_height.
+
 Theorem C06_visit_level_fuel_sufficient : forall (cb : cbT) (s : rt) (k : nat) (calls : list nat),
   visit_level (level_fuel s + k) cb (rch s) calls = visit_level (level_fuel s) cb (rch s) calls.
 Proof. exact visit_level_fuel_enough. Qed.
